@@ -66,7 +66,8 @@ PROFILES = {
                 configs="two", boom=(0, 1), nonfinite=(1, 6),
                 corruption=True, shared_errors=True),
     "C16": dict(nreq=(1, 2), mutation=(1, 3), variants=True, reps=1,
-                configs="all", boom=(1, 8), stacks=True, overlap=True),
+                configs="all", boom=(1, 8), stacks=True, overlap=True,
+                l2=(1, 2)),
 }
 
 
@@ -111,7 +112,8 @@ def _gen_request(draws, spec, bundle, idx, profile, want_mut, tier="quick",
     req.document = None
     req.repeat_of = None
     if prev is not None and prev.variant == "normal" and \
-            profile.get("activities") and rs.chance(1, 3, "repeat"):
+            (profile.get("activities") or profile.get("corruption")) and \
+            rs.chance(1, 3, "repeat"):
         # The same document again with other variables (and another world):
         # what a server with a parsed-document cache does all day.
         req.repeat_of = prev.index
@@ -129,6 +131,10 @@ def _gen_request(draws, spec, bundle, idx, profile, want_mut, tier="quick",
             req.document = prev.document
         req.wseed = rs.below(1 << 30, "wseed")
         req.nonfinite = False
+        if rs.chance(1, 3, "policy"):
+            # the same document again, under a stricter validator list that
+            # refuses it: must be refused, whatever was accepted before
+            req.variant = "policy"
         return _finish_request(draws, spec, req, idx, profile, rs, tier)
     kind = "query"
     if want_mut and (profile.get("force_mutation")
@@ -137,9 +143,11 @@ def _gen_request(draws, spec, bundle, idx, profile, want_mut, tier="quick",
     req.variant = "normal"
     req.preparsed = False
     if profile.get("variants") and rs.chance(1, 3, "variant"):
+        # "truncated anywhere" and "corrupted in transit" reach the most
+        # lexer / parser states per request: weighted up
         req.variant = ("syntax", "validation", "variables", "opname",
                        "truncate", "flip", "preparsed")[
-            rs.below(7, "variant_kind")]
+            rs.weighted((1, 1, 2, 1, 4, 3, 1), "variant_kind")]
     gen = OpGen(rs, spec, max_depth=2 + rs.below(2, "depth"),
                 budget=8 + 8 * rs.below(3, "budget"),
                 features={"prefer_vars": req.variant == "variables"})
@@ -159,7 +167,11 @@ def _gen_request(draws, spec, bundle, idx, profile, want_mut, tier="quick",
         # bias half of the cuts to land right after a character that opens
         # in-flight lexer state (escape, string, number, spread, variable...)
         hot = [i + 1 for i, ch in enumerate(text) if ch in '\\"$@.:([{#-eu']
-        if hot and rs.chance(1, 2, "cut_hot"):
+        hotter = [i + 1 for i, ch in enumerate(text) if ch in '\\"']
+        if hotter and rs.chance(1, 4, "cut_hotter"):
+            # inside / at the edge of string literals and escapes
+            text = text[: hotter[rs.below(len(hotter), "cut_at")]]
+        elif hot and rs.chance(1, 2, "cut_hot"):
             text = text[: hot[rs.below(len(hot), "cut_at")]]
         else:
             text = text[: rs.below(len(text) + 1, "cut")]
@@ -332,16 +344,28 @@ def _corrupt_variables(req, rs):
             cands.append((name, None))
         elif base in ("Int", "Stamp", "Color", "Inp"):
             cands.append((name, {"bad": 1}))
+            # payload text ends up quoted in the error message
+            cands.append((name, ("100%", "%s and %d", "%(name)s", "{0} {}",
+                                 "\\u0041 \n")[rs.below(5, "fmt_payload")]))
+        # numbers a JSON payload can carry that no GraphQL number type holds:
+        # 1e999 (parsed as inf), NaN, integers of hundreds of digits
+        if base == "Int" and not t.startswith("["):
+            cands.append((name, (float("inf"), float("nan"), 10 ** 400,
+                                 float("-inf"))[rs.below(4, "num_edge")]))
+        if base == "Float":
+            edge = (10 ** 400, -(10 ** 400), float("inf"), float("nan"))[
+                rs.below(4, "num_edge")]
+            cands.append((name, [edge] if t.startswith("[") else edge))
         # nested containers carrying several errors of their own
         if t.startswith("[[") :
-            nested.append((name, [[1, 2], [None, "x", {"y": 1}]]))
+            nested.append((name, [[1, 2], [None, "x%s", {"y%": 1}]]))
         elif t.startswith("[") and base == "Inp":
             nested.append((name, [{"a": None, "c": ["NOPE", 5]},
-                                  {"a": "x", "zzz": 1}]))
+                                  {"a": "x%", "zzz": 1, "b": "-20%s"}]))
         elif t.startswith("["):
-            cands.append((name, [None, {"bad": 1}, [], "x"]))
+            cands.append((name, [None, {"bad": 1}, [], "x%d"]))
         elif base == "Inp":
-            nested.append((name, {"a": "x", "b": [1],
+            nested.append((name, {"a": "x", "b": "100%s",
                                   "c": ["NOPE", 5, None]}))
     if nested and (not cands or rs.chance(1, 2, "corrupt_nested")):
         cands = nested
@@ -367,7 +391,36 @@ def _classify(result):
     return "executed", "execution"
 
 
+_SIZED = {}
+
+
+def _sized(cls):
+    """Subclass of a recorder class that also behaves as a sized collection
+    (``len()`` = number of hooks seen so far)."""
+    if cls not in _SIZED:
+        class Sized(cls):
+            seen = 0
+
+            def _log(self, kind, path=None):
+                self.seen += 1
+                super()._log(kind, path)
+
+            def __len__(self):
+                return self.seen
+
+        Sized.__name__ = "Sized" + cls.__name__
+        _SIZED[cls] = Sized
+    return _SIZED[cls]
+
+
+def _reject_policy(schema, document, variables=None):
+    """A custom validator (the ``validators=`` argument of the entry points)
+    that refuses every document."""
+    return [ValidationError("refused by policy", [document.definitions[0]])]
+
+
 _EXPECTED_CLASS = {
+    "policy": ("validation-error", "validation"),
     "syntax": ("syntax-error", "syntax"),
     "validation": ("validation-error", "validation"),
     "variables": ("variables-error", "variables"),
@@ -641,6 +694,13 @@ def _execute(config, bundle, spec, req, sched, policy):
             cls = {"R": Recorder, "S": StartsOnlyRecorder,
                    "E": EndsOnlyRecorder}[t[0]]
             recs.append(cls(kref, t))
+        if len(recs) >= 2 and (req.wseed >> 11) % 3 == 0:
+            # a stack member that is a *collection* of what it has seen --
+            # empty, hence falsy, when the stack is assembled (never the
+            # top-level object: the entry points themselves substitute a
+            # default for a falsy ``instrumentation=`` argument)
+            k = 1 + (req.wseed >> 13) % (len(recs) - 1)
+            recs[k] = _sized(type(recs[k]))(kref, tags[k])
         if req.tracer:
             _tracers.datetime = _FakeDatetimeModule(kref, req.skew)
             tr = _tracers.ApolloTracer()
@@ -670,6 +730,9 @@ def _execute(config, bundle, spec, req, sched, policy):
         "root": req.root,
         "kind": req.op.kind,
     }
+    if req.variant == "policy":
+        from py_gql.validation import default_validator
+        request["validators"] = [default_validator, _reject_policy]
     try:
         out = run_config(
             config, bundle, request, world, sched, policy=policy,
@@ -790,6 +853,15 @@ def _evaluate(res, prop, config, req, out, hooks):
     got_class, got_stage = _classify(out.result)
     if req.variant in _EXPECTED_CLASS:
         want_class, want_stage = _EXPECTED_CLASS[req.variant]
+        if got_class != want_class and req.variant == "policy":
+            V.append(Violation(
+                ("C10", "C04"), "data_presence",
+                ("policy-validator", got_class),
+                "request %d repeats the document of request %r under "
+                "validators=[default_validator, reject]: outcome %s, data %s"
+                % (req.index, req.repeat_of, got_class,
+                   "present" if out.result.data is not None else "absent")))
+            return
         if got_class != want_class:
             # the harness constructed a request of a known class
             raise HarnessError(
